@@ -5,6 +5,7 @@ runs the real code on the same requests and diffs the observations.
 -/
 import Lean.Data.Json
 import DTML.Batch
+import DTML.Quote
 open Lean DTML
 
 namespace Driver
@@ -58,6 +59,16 @@ def opLazy (j : Json) : Except String Json := do
     ("sequential", Json.bool (l.log == List.range l.pulled)),
     ("start", jInt st), ("end", jInt e), ("size", jInt sz)]
 
+/-- op "quote": the quoting forms on a str value -/
+def opQuote (j : Json) : Except String Json := do
+  let v ← getStr j "s"
+  let s := v.toList
+  return Json.mkObj [("escape", Json.str (String.ofList (Quote.escape s))),
+    ("simpleH", Json.str (String.ofList (Quote.renderSimpleH s))),
+    ("fullH", Json.str (String.ofList (Quote.renderFullH s))),
+    ("plain", Json.str (String.ofList (Quote.renderSimple s))),
+    ("unesc", Json.str (String.ofList (Quote.unescape5 (Quote.escape s))))]
+
 def handle (j : Json) : Except String Json := do
   let op ← getStr j "op"
   match op with
@@ -65,6 +76,7 @@ def handle (j : Json) : Except String Json := do
   | "opt" => opOpt j
   | "follow" => opFollow j
   | "lazy" => opLazy j
+  | "quote" => opQuote j
   | "ping" => return Json.str "pong"
   | _ => throw s!"unknown op {op}"
 
